@@ -14,6 +14,7 @@ import Driver.Lang
 import Driver.VMOps
 import Driver.Target
 import Driver.Bytecode
+import Driver.Emit
 
 def main (args : List String) : IO UInt32 := do
   match args with
@@ -33,4 +34,5 @@ def main (args : List String) : IO UInt32 := do
   | ["vmops"] => Driver.VMOps.main; return 0
   | ["target"] => Driver.Target.main; return 0
   | ["bytecode"] => Driver.Bytecode.main; return 0
+  | ["emit"] => Driver.Emit.main; return 0
   | _ => IO.eprintln "usage: driver <area>"; return 2
